@@ -272,6 +272,101 @@ def run(ctx):
             if not ok:
                 r3b.violate("C15|R3b|%s" % sname, "%s writes the multipart Content-Type %r, which does not contain what the reader splits on (%s): the boundary of a response the library wrote cannot be found when it is read back" % (sname, tx, sorted(reader_lits)), fn0.file, fn0.span["line"], sname)
 
+    # ---- R2d a part body ends at a boundary line, or the reader reports an error
+    r2d = chk.rule("R2d-part-body-ends-at-a-boundary", "in the multipart/byteranges reader the loop that collects a part body is left either where the boundary test has succeeded or towards an Err return: running out of input is never a way to a stored part (a truncated body is not read back as a complete one)", floor=1)
+    from .. import loops as L_
+    from ..rules.parse_common import strip_not as _strip_not
+    for rn in ("range::Range::parse_multipart_body_with_boundary",):
+        rf0 = F.fns.get(rn)
+        if rf0 is None:
+            r2d.violate("C15|R2d|anchor-missing|%s" % rn, "%s not found" % rn)
+            continue
+        rf = ctx.inl(rf0)
+        rcfg, rdu, rld = cfg_of(rf), du_of(rf), local_deps(rf)
+        bparam = next((i for i in range(1, rf.nargs + 1) if "boundary" in (rf.local_name(i) or "")), None)
+        if bparam is None:
+            r2d.note("%s has no parameter named boundary: not decided" % rn)
+            r2d.floor = 0
+            continue
+
+        def is_btest(v):
+            # contains(boundary) on text / bytes: a call named contains / contains_* / find / any one of whose arguments derives from the boundary
+            if v[0] != "call" or not re.search(r"(::contains\w*|::find|::any|::is_some)$", v[1] or ""):
+                return False
+            blk = next((b_ for b_ in rf.blocks if b_["id"] == v[3]), None)
+            if blk is None:
+                return False
+            return any(a.get("k") in ("copy", "move") and bparam in rld.closure(a["l"]) for a in blk["term"]["args"])
+        found_edges = []
+        test_blocks = []
+        for sb in rcfg.live_blocks():
+            st = rcfg.blocks[sb]["term"]
+            if st["k"] != "switch" or st.get("discr_ty") != "bool":
+                continue
+            v, neg = _strip_not(rdu, rdu.val_operand(st["discr"]))
+            t_e = f_e = None
+            for val, tb in st["targets"]:
+                if val == 0:
+                    t_e, f_e = (sb, st["otherwise"]), (sb, tb)
+            if t_e is None:
+                continue
+            if is_btest(v):
+                found_edges.append(f_e if neg else t_e)
+                test_blocks.append(v[3])
+            elif v[0] == "place" and not v[1][1]:
+                # a flag: `is_not_boundary = !text.contains(boundary)` tested by the loop condition
+                ds = rdu.defs.get(v[1][0], [])
+                comp = []
+                const_vals = []
+                for d in ds:
+                    if d[0] == "assign" and d[3]["k"] == "use" and d[3]["ops"][0].get("k") == "const" and isinstance(d[3]["ops"][0].get("v"), bool):
+                        const_vals.append(d[3]["ops"][0]["v"])
+                    else:
+                        vv_ = rdu.val_call(d[3], 0, d[1]) if d[0] == "call" else rdu.val_rvalue(d[3], 0, d[1])
+                        comp.append(_strip_not(rdu, vv_))
+                if comp and all(is_btest(cv) for cv, _ in comp) and len({cn for _, cn in comp}) == 1:
+                    cneg = comp[0][1]
+                    # flag == (contains XOR cneg): contains is true on the edge where flag == (not cneg); the constants must all be the other value
+                    flag_when_found = not cneg
+                    if all(c_ != flag_when_found for c_ in const_vals):
+                        edge_flag_true, edge_flag_false = (f_e, t_e) if neg else (t_e, f_e)
+                        found_edges.append(edge_flag_true if flag_when_found else edge_flag_false)
+                        test_blocks += [cv[3] for cv, _ in comp]
+        if not found_edges:
+            r2d.note("%s: no test of a line against the boundary was recognised: not decided" % rn)
+            r2d.floor = 0
+            continue
+        stores = [b_["id"] for b_ in rf.blocks if not b_["cleanup"] and (
+            any(s_["k"] == "assign" and s_["rv"]["k"] == "aggregate" and (s_["rv"].get("adt") or "").endswith("ContentRange") for s_ in b_["stmts"])
+            or (b_["term"]["k"] == "call" and (callee_name(b_["term"]) or "").endswith("::push") and "ContentRange" in " ".join(b_["term"].get("arg_tys") or [])))]
+        body_loops = [lp for lp in L_.loops_of(rf) if any(tb_ in lp.body for tb_ in test_blocks)]
+        # the innermost such loop collects the body
+        body_loops.sort(key=lambda lp: len(lp.body))
+        if not body_loops:
+            r2d.note("%s: the boundary test is not inside a loop: not decided" % rn)
+            r2d.floor = 0
+            continue
+        lp = body_loops[0]
+        k_ = 0
+        for u in sorted(lp.body):
+            for v_ in rcfg.succ.get(u, []):
+                if v_ in lp.body or rcfg.blocks[v_].get("cleanup"):
+                    continue
+                k_ += 1
+                e_ = (u, v_)
+                ok = e_ in found_edges or any(rcfg.edge_dominates(fe, u) or fe == e_ for fe in found_edges if fe[0] in lp.body)
+                how = "boundary found"
+                if not ok:
+                    reach = L_.feasible_reach(rcfg, e_, stop=(lp.header,))
+                    if reach is None:
+                        reach = rcfg.reachable_from(v_)
+                    # towards an error: no part is stored on any way on from here (within this turn of the part loop)
+                    ok = not (set(reach) & (set(stores) - set(lp.body)))
+                    how = "leads to an error return" if ok else "input ran out"
+                r2d.instance({"reader": rn, "loop": lp.key(), "exit": [u, v_], "how": how}, ok)
+                if not ok:
+                    r2d.violate("C15|R2d|%s|exit-%d" % (rn, k_), "%s: the part-body loop can be left at line %d without the boundary test having succeeded, and a part is stored afterwards: a body cut off before its boundary is read back as a complete part" % (rn, rcfg.blocks[u]["term"]["span"]["line"]), rf.file, rcfg.blocks[u]["term"]["span"]["line"], rn)
+
     # ---- R4 status list exhaustive
     r4 = chk.rule("R4-status-list-exhaustive", "the registered-status list used by the parser contains every field of the status struct exactly once", floor=1)
     lf = F.fns.get("response::Response::status_code_reason_phrase_list")
